@@ -201,12 +201,18 @@ def gen_case(seed, idx, tier):
         bn = os.path.basename(prog.rstrip("/")) if prog.rstrip("/") else (prog[:1] or ".")
         if prog in (".", ".."):
             bn = prog
-        fkind = rng.choice(["absent", "empty", "no-newline", "comments", "garbage", "valid"])
+        fkind = rng.choice(["absent", "empty", "no-newline", "comments", "garbage", "valid", "layout", "layout"])
         if fkind != "absent" and "/" not in bn and bn not in ("", ".", ".."):
             # fixed-size destinations filled from the file (their limit must hold for every source, not only for argv)
             fixed = rng.choice(["-a 1,2,3,4\n", "-a 1,2,3,4,5\n", "-a 1,2\n-a 3,4\n", "-r 7,8\n-r 9,10\n", "-r 1,2,3,4\n", "-t 1,x,2.5,9\n",
                                 "-b 3,16\n", "--vbool 9,10,31\n", "-a 1\n-a 2\n-a 3\n-a 4\n-a 5\n"])
-            content = {"empty": "", "no-newline": "-i 4", "comments": "# comment\n\n-i 4\n# x\n--str 'a b'\n",
+            # line layouts: blank-only / tab-only / indented lines, very short and long lines (buffer inside the string object
+            # resp. on the heap), CR LF, a lone '#', quotes that stay open, nothing but separators
+            pieces = ["", " ", "   ", "\t", " \t ", "#", " # indented comment", "-i 4", "   -i 5", "-i 6   ", "--str " + "x" * rng.choice([1, 15, 16, 17, 40, 300]),
+                      "# " + "c" * rng.choice([10, 16, 64]), "-v 1,2,3", "--str 'open", "--str \"open", "-i", "=", "--", "-", "--str=\\", "-i 4\r", "\r",
+                      " " * rng.choice([16, 17, 64]), "-f -f", ",,,", "--vec ,", "--str ''"]
+            layout = "\n".join(rng.choice(pieces) for _ in range(rng.randint(1, 8))) + rng.choice(["\n", "", "\n\n", " "])
+            content = {"empty": "", "no-newline": "-i 4", "comments": "# comment\n\n-i 4\n# x\n--str 'a b'\n", "layout": layout,
                        "garbage": "".join(chr(rng.randint(1, 255)) for _ in range(rng.randint(1, 80))) + "\n",
                        "valid": rng.choice(["-i 4\n--str x\n", fixed, "-i 4\n" + fixed])}[fkind]
             extra += "P %s %s\n" % (hx(".progargs/%s.pa" % bn), hx(content))
